@@ -10,6 +10,9 @@ const PAGE: usize = 4096;
 struct ModPlan {
     path: String,
     deleted: bool,
+    /// the loaded image's first 16 bytes are overwritten by the target (a packer, a stray write): the identifier and
+    /// the SONAME have to come from the file
+    clobbered: bool,
     layout: String,
     ref_id: String,
     ref_soname: String,
@@ -97,11 +100,14 @@ fn plan_module(r: &mut Rng, dir: &str, k: usize, hostile: bool) -> ModPlan {
         "rw" => format!("0:{}:rw", want_pages),
         _ => format!("0:{}:{}", want_pages, *r.pick(&["rx", "rx", "r"])),
     };
-    let deleted = r.chance(1, 6);
+    let clobbered = (kind == "whole" || kind == "split") && Rng::new(r.0 ^ 0x510e_527f).chance(1, 5);
+    // (the SONAME is then looked up in the file as well)
+    let kind = if clobbered { "clobbered" } else { kind };
+    let deleted = !clobbered && r.chance(1, 6);
     if deleted {
         std::fs::write(format!("{}.keep", path), &bytes).unwrap();
     }
-    ModPlan { path, deleted, layout, ref_id, ref_soname, kind }
+    ModPlan { path, deleted, clobbered, layout, ref_id, ref_soname, kind }
 }
 
 pub fn generate(prop: &str, seed: u64, tier: &str, out: &mut dyn std::io::Write) {
@@ -117,7 +123,7 @@ pub fn generate(prop: &str, seed: u64, tier: &str, out: &mut dyn std::io::Write)
         let mut args = vec!["-t".to_string(), r.range(0, 2).to_string()];
         for p in &plans {
             args.push("-M".into());
-            args.push(format!("{}|{}|{}", hex(p.path.as_bytes()), if p.deleted { "d" } else { "-" }, p.layout));
+            args.push(format!("{}|{}|{}", hex(p.path.as_bytes()), if p.deleted { "d" } else if p.clobbered { "z" } else { "-" }, p.layout));
         }
         let t = match Target::spawn(&args) {
             Ok(t) => t,
